@@ -7,12 +7,12 @@
 package main
 
 import (
-	simrt "github.com/tsuna/gohbase/verifsimrt"
 	"crypto/sha256"
 	"encoding/hex"
 	"encoding/json"
 	"flag"
 	"fmt"
+	simrt "github.com/tsuna/gohbase/verifsimrt"
 	"os"
 	"os/signal"
 	"runtime"
